@@ -220,7 +220,14 @@ let oracle (script : string) (obs : string) (legal : bool array) : string =
         List.iter (fun it ->
             if it = "" then () else
             try
-              if it.[0] = 'c' then begin
+              if it.[0] = 'k' then
+                (* a node an iterator handed out read differently once the iterator had moved on (nothing
+                   but reads in between): a failure on every history *)
+                add "iterator_node_changed"
+              else if it.[0] = 'h' then
+                (* … or after later steps, while the register it came from still reads the same *)
+                (if is_legal then add "iterator_node_changed")
+              else if it.[0] = 'c' then begin
                 let eq = String.index it '=' in
                 let i = int_of_string (String.sub it 1 (eq - 1)) in
                 let txt = String.sub it (eq + 1) (String.length it - eq - 1) in
@@ -260,14 +267,30 @@ let () =
          | _ -> Printf.printf "%s\t?\tok\n" id)
       | [id; script; obs] when String.length script >= 6 && String.sub script 0 6 = "typed:" ->
         (* typed engines: no heap model; the specification itself is the prediction *)
-        Printf.printf "%s\tstable\t%s\n" id (if obs = "stable" then "ok" else "fail:typed_child_changed")
+        let basic = String.length script >= 12 && String.sub script 0 12 = "typed:basic:" in
+        Printf.printf "%s\tstable\t%s\n" id
+          (if obs = "stable" then "ok" else if basic then "fail:iterator_node_changed" else "fail:typed_child_changed")
       | [id; script; obs] ->
         (try
            let (m, legal) = run_model script in
            let v = oracle script obs legal in
            (* the runner compares model and implementation only on cases the oracle passes; a case that
               fails with a known class must not hide a disagreement between the two *)
-           let v = if v <> "ok" && m <> obs then v ^ ",model_disagrees" else v in
-           Printf.printf "%s\t%s\t%s\n" id m v
+           (* retention tokens (;k<i> ;h<i>, at the end of a step) are the oracle's business, not the
+              model's: the model hands out frozen nodes and never predicts one.  They are left out when
+              deciding whether model and implementation disagree, and on steps that are not Legal (where
+              the oracle is vacuous) the model's prediction takes them over from the implementation. *)
+           let is_ret it = String.length it > 0 && (it.[0] = 'k' || it.[0] = 'h') in
+           let strip step = String.concat ";" (List.filter (fun it -> not (is_ret it)) (String.split_on_char ';' step)) in
+           let osteps = String.split_on_char '|' obs and msteps = String.split_on_char '|' m in
+           let obs_stripped = String.concat "|" (List.map strip osteps) in
+           let m' =
+             if List.length osteps <> List.length msteps then m else
+               String.concat "|" (List.mapi (fun j ms ->
+                   let is_legal = j < Array.length legal && legal.(j) in
+                   if is_legal then ms else
+                     String.concat ";" (ms :: List.filter is_ret (String.split_on_char ';' (List.nth osteps j)))) msteps) in
+           let v = if v <> "ok" && m <> obs_stripped then v ^ ",model_disagrees" else v in
+           Printf.printf "%s\t%s\t%s\n" id m' v
          with e -> Printf.printf "%s\tmodel-exception:%s\tok\n" id (Printexc.to_string e))
       | _ -> ())
